@@ -9,6 +9,7 @@ from .. import pysym as P
 from ..hbase import STUBS
 from ..hlib import c15k as K
 from .common import BASE_ASSUMPTIONS, ROOT, Cond, Spec
+from ..runner import innermost as U
 from ..runner import HarnessError
 
 
@@ -203,7 +204,7 @@ def build(tier):
     return Spec(
         pid="C15", source=src, conds=conds,
         functions_encoded=[com.Throttle.wait, com.Throttle.append, com.Throttle.clone, com.Throttle.limit.fset, com.Throttle.__init__, com.ThrottleStreamIO.wait, com.ThrottleStreamIO.append,
-                           com.ThrottleStreamIO.read, com.ThrottleStreamIO.write, com.StreamThrottle.clone, S.dispatcher, S.user, S.pasv.__wrapped__, S.epsv.__wrapped__, C.connect, C.get_stream.__wrapped__],
+                           com.ThrottleStreamIO.read, com.ThrottleStreamIO.write, com.StreamThrottle.clone, S.dispatcher, S.user, U(S.pasv), U(S.epsv), C.connect, U(C.get_stream)],
         bounds={
             "kernel (z3 over the interpreted source)": f"k = {4 if q else 6} sequential I/Os (3-4 for stacks) with symbolic chunk sizes 1..64, I/O durations >= 0, idle gaps >= 0 and oversleeps >= 0 (reals); limits from the grid "
                                                        f"{[1, 3, 1000, 8192] if q else [1, 3, 1000, 8192, 2 ** 20]}, stacks of 2" + ("" if q else "-3") + " limits, reset_rate in (1, 10), both directions; "
